@@ -782,11 +782,15 @@ def rule_text_fidelity(ck, px):
                 te = alias_expand(tg.node, t_.ast)
                 truthy_emits = br["true"]
                 txt = q.unparse(te)
-                okt = (txt == var and truthy_emits) or (txt in ("len(%s) > 0" % var, "%s != ''" % var, "len(%s)" % var) and truthy_emits) or (txt in ("len(%s) == 0" % var, "%s == ''" % var) and not truthy_emits)
-                if not okt:
+                okt = None
+                try:
+                    outs_ = {v_: bool(q.fold(te, {var: v_})) == truthy_emits for v_ in ("", " ", "\n", "x")}
+                    okt = outs_ == {"": False, " ": True, "\n": True, "x": True}
+                except q.NotFoldable:
                     meths = [c_ for c_ in ast.walk(te) if isinstance(c_, ast.Call) and isinstance(c_.func, ast.Attribute) and c_.func.attr in STR_TRANSFORMS | {"isspace"} and var in q.names_in(c_)]
                     if not meths:
                         raise AnalysisError("_Text.generate: emission guard not understood: %s" % txt)
+                    okt = False
                 ck.ob(rid, tg, t_.ast, okt, "only empty text is suppressed (whitespace-only text is still output)")
     tinit_st = [s for s in q.stores_to(tinit.node, "self.whitespace")]
     ck.ob(rid, tinit, tinit.node, len(tinit_st) == 1 and q.dotted(tinit_st[0].value) == ws_param[0], "_Text stores the mode it was constructed with", construct="self.whitespace = %s" % ws_param[0])
@@ -1421,7 +1425,9 @@ def rule_inherit(ck, px):
 
 
 def run(ck):
-    from ..x_valuewalk import guard_obligations
+    from ..x_valuewalk import guard_obligations, plain_assignments
+
+    ck.repo = plain_assignments(ck.repo, ['tornado/template.py'])
 
     guard_obligations(ck, ['_parse', '_get_ancestors', '_generate_python', '_format_code', '_create_template', '_find_directive'])
     ck.rule("C19.raise-class", "every raise statement in the call closure of _parse / _get_ancestors constructs ParseError; a helper raising another class is only called behind a handler that raises ParseError or a membership guard over the values it accepts")
